@@ -486,7 +486,7 @@ fn main() {
   } else {
     // quick: a fixed slice of the other families (every 8th program, all small families)
     for (i, p) in fams.into_iter().enumerate() {
-      if !matches!(p.family, "vec-ops" | "int-expression" | "type-shape") || i % 8 == 0 {
+      if !matches!(p.family, "vec-ops" | "int-expression" | "type-shape" | "inference-shape") || i % 8 == 0 {
         progs.push(p);
       }
     }
